@@ -54,6 +54,7 @@ struct Upstream {
     t_ret_ns: u64,
     qname: String, // lower-cased
     qtype: Rtype,
+    qclass: Class,
     flags: Flags,
     class: RespClass,
     view: Option<View>, // None = transport error
@@ -152,9 +153,10 @@ impl SendRequest<RequestMessage<Vec<u8>>> for UpstreamStub {
             let res = build_response(&msg, &qname_s, q.qtype(), flags, class, serial);
             let view = res.as_ref().ok().map(|m| dns::view(m.as_slice()).expect("stub response parses"));
             ev!(
-                "upstream #{:x} {} {} {:?} -> {:?}{}",
+                "upstream #{:x} {} {} {} {:?} -> {:?}{}",
                 serial,
                 qname_s,
+                q.qclass(),
                 q.qtype(),
                 flags,
                 class,
@@ -181,6 +183,7 @@ impl SendRequest<RequestMessage<Vec<u8>>> for UpstreamStub {
                 t_ret_ns: sim::now_ns(),
                 qname: qname_s.to_ascii_lowercase(),
                 qtype: q.qtype(),
+                qclass: q.qclass(),
                 flags,
                 class,
                 view,
@@ -394,6 +397,7 @@ struct Query {
     k: usize,
     qname: String,
     qtype: Rtype,
+    qclass: Class,
     flags: Flags,
     t_invoke: u64,
     t_return: u64,
@@ -472,6 +476,7 @@ fn check_query(q: &Query, log: &[Upstream], cfg: &Cfg) {
                 u.view.is_none()
                     && u.qname == lower
                     && u.qtype == q.qtype
+                    && u.qclass == q.qclass
                     && flags_compatible(&q.flags, &u.flags).is_ok()
                     && u.t_ret_ns <= q.t_return
                     && (q.t_invoke.saturating_sub(u.t_ret_ns)) <= cfg.transport_failure * 1_000_000_000
@@ -486,7 +491,7 @@ fn check_query(q: &Query, log: &[Upstream], cfg: &Cfg) {
             // serial: match them by time/shape below.
             let cands: Vec<&Upstream> = if serials.is_empty() {
                 log.iter()
-                    .filter(|u| u.view.as_ref().is_some_and(|v| v.recs.is_empty()) && u.qname == lower && u.qtype == q.qtype && u.t_ret_ns <= q.t_return)
+                    .filter(|u| u.view.as_ref().is_some_and(|v| v.recs.is_empty()) && u.qname == lower && u.qtype == q.qtype && u.qclass == q.qclass && u.t_ret_ns <= q.t_return)
                     .collect()
             } else if serials.len() > 1 {
                 fail("origin", "mixed-serials", format!("response mixes records of several upstream responses: {:x?}", serials));
@@ -514,8 +519,8 @@ fn check_query(q: &Query, log: &[Upstream], cfg: &Cfg) {
 fn check_against(q: &Query, r: &View, u: &Upstream, cfg: &Cfg) -> Result<(), (String, String)> {
     let e = |sig: &str, d: String| Err((sig.to_string(), format!("vs upstream #{:x} ({:?} at {:.3}s, flags {:?}): {}", u.serial, u.class, u.t_ret_ns as f64 / 1e9, u.flags, d)));
     let uv = u.view.as_ref().unwrap();
-    if u.qname != q.qname.to_ascii_lowercase() || u.qtype != q.qtype {
-        return e("wrong-question", format!("upstream response was for {} {}", u.qname, u.qtype));
+    if u.qname != q.qname.to_ascii_lowercase() || u.qtype != q.qtype || u.qclass != q.qclass {
+        return e("wrong-question", format!("upstream response was for {} {} {}", u.qname, u.qclass, u.qtype));
     }
     if u.t_ret_ns > q.t_return {
         return e("from-the-future", "upstream response is younger than the delivery".into());
@@ -536,7 +541,7 @@ fn check_against(q: &Query, r: &View, u: &Upstream, cfg: &Cfg) -> Result<(), (St
         }
     }
     // Question.
-    if r.questions.len() != 1 || r.questions[0].0.to_ascii_lowercase() != u.qname || r.questions[0].1 != q.qtype {
+    if r.questions.len() != 1 || r.questions[0].0.to_ascii_lowercase() != u.qname || r.questions[0].1 != q.qtype || r.questions[0].2 != q.qclass {
         return e("question-changed", format!("question {:?}", r.questions));
     }
     // Header.
@@ -710,6 +715,9 @@ async fn run(_tier: Tier) {
                     _ => format!("n{}.CACHE", ni),
                 };
                 let qtype = [Rtype::A, Rtype::TXT, Rtype::RRSIG][sim::draw("q.type", n_types) as usize];
+                // Mostly the Internet class; now and then the same name and
+                // type in another class, which is another question.
+                let qclass = if sim::chance("q.other_class", 1, 10) { *sim::pick("q.class", &[Class::CH, Class::HS]) } else { Class::IN };
                 let fl = sim::draw("q.flags", 16) & flag_mask;
                 let flags = Flags {
                     rd: fl & 1 != 0,
@@ -722,7 +730,7 @@ async fn run(_tier: Tier) {
                 mb.header_mut().set_cd(flags.cd);
                 mb.header_mut().set_ad(flags.ad);
                 let mut qb = mb.question();
-                qb.push((Name::<Vec<u8>>::from_chars(qname.chars()).unwrap(), qtype)).unwrap();
+                qb.push((Name::<Vec<u8>>::from_chars(qname.chars()).unwrap(), qtype, qclass)).unwrap();
                 let mut req = RequestMessage::new(qb.into_message()).unwrap();
                 if flags.dnssec_ok {
                     req.set_dnssec_ok(true);
@@ -732,7 +740,7 @@ async fn run(_tier: Tier) {
                 let t_invoke = sim::now_ns();
                 let n_up_before = 0;
                 let _ = n_up_before;
-                ev!("q k={} {} {} {:?} invoke", k, qname, qtype, flags);
+                ev!("q k={} {} {} {} {:?} invoke", k, qname, qclass, qtype, flags);
                 let mut gr = conn.send_request(req);
                 let res = gr.get_response().await;
                 sim::sync_clock();
@@ -755,6 +763,7 @@ async fn run(_tier: Tier) {
                     k,
                     qname,
                     qtype,
+                    qclass,
                     flags,
                     t_invoke,
                     t_return,
